@@ -401,7 +401,7 @@ func sortedKeys(m map[int64][]int64) []int64 {
 
 func TestC31(t *testing.T) {
 	rule := "part 1 (exhaustive grid): mode in {pre-upgrade, post-upgrade+features} x blocks-per-session 1..12 x claim-submission-window 2..6 (values the params validation admits; thorough tier: 1..16 x 2..8) " +
-		"x session start k*b+1 for k in {1,2,4} (thorough: {1,2,3,4,6}) x every claim height from session start to start+(w+2)*b. Per configuration a real pocketcore keeper on a real rootmulti store " +
+		"x session height k*b+1 for k in {1,2,4} (thorough: {1,2,3,4,6}) plus two heights that are not the first block of their session (2b+2, 3b) x every claim height from session start to start+(w+2)*b. Per configuration a real pocketcore keeper on a real rootmulti store " +
 		"(one version per height) and a real tendermint block store filled block by block; observed black-box: ValidateClaim acceptance per height; the entropy block = the unique " +
 		"block whose hash, fed to the documented selection, gets a probe proof past ValidateProof's index check (candidates: every block <= current). Oracle: claim accepted in " +
 		"block h => h <= entropy block height (hash of block e is public from height e+1 on: block e+1's header carries it). non-trivial = claim height within 1 of the last " +
@@ -463,6 +463,15 @@ func TestC31(t *testing.T) {
 					for _, k := range ks {
 						sessions = append(sessions, k*b+1)
 					}
+					// claims may name a session height that is NOT the first block of a session (the chain accepts them):
+					// the second and the last block of the session that starts at 2b+1
+					if b > 1 {
+						sessions = append(sessions, 2*b+2)
+						if b > 2 {
+							sessions = append(sessions, 3*b)
+						}
+					}
+					sort.Slice(sessions, func(i, j int) bool { return sessions[i] < sessions[j] })
 					scan := (w + 2) * b
 					fx := newChainFx(b, w, sessions[len(sessions)-1]+scan, uint64(b*100+w))
 					obs := fx.play(sessions, scan)
